@@ -642,6 +642,34 @@ def summarize_traps(es, n=4):
         + (" ... (%d sites)" % len(items) if len(items) > n else "")
 
 
+# Call sites covered by the two recorded known findings (KNOWN_FINDINGS.json).  A trapped call from any
+# OTHER site gets a signature naming that site, so it is reported as a new violation.
+KNOWN_GIBBS_GLOBAL_SITES = {
+    "models/sparse_combo.py:" + f for f in (
+        "_V0_step", "_V1_step", "_V2_step", "_W0_step", "_W_step", "_alpha_step", "_prec_V0_step", "_prec_V1_step",
+        "_prec_V2_step", "_prec_W0_step", "_prec_W_step", "_prec_obs_step")
+} | {
+    "models/sparse_combo_interaction.py:" + f for f in (
+        "_V2_step", "_W_step", "_prec_V2_step", "_prec_W0_step", "_prec_W_step", "_prec_obs_step")
+}
+KNOWN_GIBBS_UNSEEDED_SITES = {"fast_mvn.py:sample_mvn_from_precision"}
+KNOWN_GIBBS_UNSEEDED_CALLERS = {"_W_step", "_V2_step", "_V1_step"}
+
+
+def _refine(sig, traps_glob, traps_unseeded):
+    """append the first offending site that the recorded known findings do not cover"""
+    if sig == "gibbs-sampler-uses-global-np-random":
+        new = sorted({site_ff(e["frames"][0]) for e in traps_glob} - KNOWN_GIBBS_GLOBAL_SITES)
+        if new:
+            return sig + ":new-site:" + new[0]
+    if sig == "gibbs-sampler-mvn-unseeded-default-rng":
+        new = sorted({site_ff(e["frames"][0]) for e in traps_unseeded} - KNOWN_GIBBS_UNSEEDED_SITES)
+        callers = sorted({e["frames"][1].split(":")[-2] if len(e["frames"]) > 1 and e["frames"][1].count(":") >= 2 else "?" for e in traps_unseeded})
+        if new:
+            return sig + ":new-site:" + new[0]
+    return sig
+
+
 def judge(desc):
     """-> (pred, sig, features) for this aspect of the executed operation"""
     r1, r2 = executed(desc)
@@ -696,6 +724,7 @@ def judge(desc):
             sig = classify_trap(d, unseeded[0])
             pred = "%s draws from an unseeded generator instead of the given one: %s (via %s)" % (
                 op, summarize_traps(unseeded), " <- ".join(unseeded[0]["frames"][1:3]))
+    sig = _refine(sig, glob, unseeded)
     return pred, sig, feats, (r1, r2)
 
 
